@@ -377,11 +377,12 @@ func TestVerifC07(t *testing.T) {
 			{name: "r-glob-p", conf: map[string]interface{}{"allowed_policies_glob": "p*"}, allowedGlob: []string{"p"}},
 			{name: "r-period", conf: map[string]interface{}{"allowed_policies": "p1", "token_period": "20m"}, allowed: []string{"p1"}, period: 1200},
 			{name: "r-explmax", conf: map[string]interface{}{"allowed_policies": "p1", "token_explicit_max_ttl": "15m"}, allowed: []string{"p1"}, explMax: 900},
+			{name: "r-explmax-any", conf: map[string]interface{}{"token_explicit_max_ttl": "15m"}, explMax: 900},
 			{name: "r-empty", conf: map[string]interface{}{}},
 			{name: "r-batch", conf: map[string]interface{}{"allowed_policies": "p1", "token_type": "batch", "orphan": true, "renewable": false}, allowed: []string{"p1"}, orphan: true},
 		}
 		if !vout.Thorough() {
-			roles = roles[:6]
+			roles = roles[:7]
 		}
 		for _, r := range roles {
 			s.Must(s.Req(s.Root, logical.UpdateOperation, "auth/token/roles/"+r.name, r.conf))
@@ -463,11 +464,12 @@ func TestVerifC07(t *testing.T) {
 					if r.period > 0 && m.ttl > r.period+2 {
 						fail("ttl-exceeds-role-period", fmt.Sprintf("ttl %v exceeds the role's period %v", m.ttl, r.period))
 					}
-					if lerr == nil && m.explMax > 0 && m.ttl > m.explMax+2 {
-						fail("ttl-exceeds-explicit-max", fmt.Sprintf("ttl %v exceeds the explicit maximum the token itself reports (%v)", m.ttl, m.explMax))
+					// (a token that never expires, ttl 0, is not "bounded by its explicit maximum" either)
+					if lerr == nil && m.explMax > 0 && (m.ttl > m.explMax+2 || (m.ttl == 0 && m.tokenType != "batch")) {
+						fail("ttl-exceeds-explicit-max", fmt.Sprintf("ttl %v (0 = never expires) exceeds the explicit maximum the token itself reports (%v)", m.ttl, m.explMax))
 					}
-					if r.explMax > 0 && m.ttl > r.explMax+2 {
-						fail("ttl-exceeds-role-explicit-max", fmt.Sprintf("ttl %v > %v", m.ttl, r.explMax))
+					if r.explMax > 0 && (m.ttl > r.explMax+2 || (m.ttl == 0 && m.tokenType != "batch")) {
+						fail("ttl-exceeds-role-explicit-max", fmt.Sprintf("ttl %v (0 = never expires), the role's explicit maximum is %v", m.ttl, r.explMax))
 					}
 					if m.ttl > c07MountMax.Seconds()+2 {
 						fail("ttl-exceeds-mount-max", fmt.Sprintf("ttl %v", m.ttl))
